@@ -294,3 +294,51 @@ func VP_C05_Pipeline_n2_crash1() { vpC05Pipeline(2, 1, false) }
 func VP_C05_Pipeline_n3_crash1() { vpC05Pipeline(3, 1, true) }
 func VP_C05_Pipeline_n2_crash2() { vpC05Pipeline(2, 2, false) }
 func VP_C05_Pipeline_n3_crash2() { vpC05Pipeline(3, 2, true) }
+
+// C13 (hand-over): after block sync stored n blocks (with their seen commits) the switch to
+// consensus works: the last commit is rebuilt from what was stored and consensus starts at n+1.
+func vpC13Handover(n int64) {
+	vp.Stub("(*github.com/tendermint/tendermint/libs/pubsub.Server).PublishWithEvents", func() error { return nil })
+	w := vpNewC05World(false)
+	cs := w.boot()
+	for w.app.height < n {
+		w.commitNext(cs)
+	}
+	// the node that was started in block-sync mode: its consensus State was built from the state it
+	// had at start-up (nothing committed), its stores are the ones block sync filled
+	stateStore := sm.NewStore(w.stateDB, sm.StoreOptions{})
+	blockStore := store.NewBlockStore(w.blockDB)
+	genesis, err := sm.MakeGenesisState(w.genDoc)
+	if err != nil {
+		panic(err)
+	}
+	latest, err := stateStore.Load()
+	if err != nil {
+		panic(err)
+	}
+	vp.Assert(latest.LastBlockHeight == n && blockStore.Height() == n, "C13.handover.harness-synced-n-blocks")
+	blockExec := sm.NewBlockExecutor(stateStore, log.NewNopLogger(), nil, emptyMempool{}, sm.EmptyEvidencePool{})
+	fresh := NewState(cfg.DefaultConsensusConfig(), genesis, blockExec, blockStore, emptyMempool{}, sm.EmptyEvidencePool{})
+	fresh.SetEventBus(types.NewEventBus())
+	conR := NewReactor(fresh, true)
+	vp.Stub("(*github.com/tendermint/tendermint/libs/service.BaseService).Start", func() error { return nil })
+	paniced := ""
+	func() {
+		defer func() {
+			if rec := recover(); rec != nil {
+				paniced = fmt.Sprint(rec)
+			}
+		}()
+		conR.SwitchToConsensus(latest, true)
+	}()
+	vp.Assert(paniced == "", "C13.handover.what-block-sync-stored-lets-consensus-start-without-error")
+	vp.Assert(fresh.Height == n+1, "C13.handover.consensus-starts-at-the-next-height")
+	if n >= 1 {
+		vp.Assert(fresh.LastCommit != nil && fresh.LastCommit.HasTwoThirdsMajority(), "C13.handover.last-commit-is-rebuilt-from-the-stored-seen-commit")
+	}
+	vp.Reach("switched")
+}
+
+func VP_C13_Handover_n0() { vpC13Handover(0) }
+func VP_C13_Handover_n1() { vpC13Handover(1) }
+func VP_C13_Handover_n2() { vpC13Handover(2) }
